@@ -94,10 +94,13 @@ def intern_eq(repo, res, rule="INTERN-EQ"):
     if len(imp) != 1:
         res.undecided(rule, f"{rule}:DFA:PartialEq", f"{len(imp)} manual PartialEq impls for DFA")
         return
+    from vlib import rules_hasheq as HQ
+
     fn = repo.fn("dfa::<DFA as PartialEq>::eq")
-    txt = "".join(repo.text(fn.file, fn.body).split()) if fn else ""
-    compared = [f for f in ("starting_state", "transitions", "accepting_states", "inputs") if f"self_{f}==other_{f}" in txt]
-    res.check(len(compared) == 4 and "subdfas:_" in txt, rule, f"{rule}:DFA:eq-fields", f"DFA equality compares {compared} (numbered states, ordered symbol pool), ignores subdfas", fn.loc() if fn else "")
+    ep = HQ.eq_profile(repo, "DFA") or {}
+    compared = sorted(f for f in ep if f != "*")
+    res.check(set(compared) == {"starting_state", "transitions", "accepting_states", "inputs"}, rule, f"{rule}:DFA:eq-fields", f"DFA equality compares {compared} (numbered states, symbol pool), ignores subdfas", fn.loc() if fn else "")
+    HQ.hasheq_rule(repo, res)
     # is there a canonicalisation of symbol order / state numbering between minimize() and intern()? (there is none: finding)
     f2 = repo.fn("dfa::Inp::from_input")
     ok = False
